@@ -13,8 +13,10 @@ PROP = Prop(
     'C17', "PRINCE-LING emits the ruleset's words most-probable-first, up to the size asked",
     functions=[gp.WG + ':create_prince_wordlist', M + 'write_guess_to_file', M + 'save_to_file', M + 'print_guess',
                M + 'create_guesses', M + '_recursive_guesses', Q + 'PcfgQueue.next', Q + 'PcfgQueue.__init__',
-               gp.PM + ':prince_evaluation'],
-    lemmas=lambda: gl.queue_step.lemmas() + gs.flat_ext.lemmas() + ge.catvals_split.lemmas(),
+               gp.PM + ':prince_evaluation',
+               # 'each (type, value, capitalisation) once', most probable first: the adoption rule and the queue step (C01/C02's functions)
+               M + '_find_prob', M + '_are_you_my_child', M + 'find_children', M + 'initalize_base_structures', Q + 'PcfgQueue.insert_queue'],
+    lemmas=lambda: gl.queue_step.lemmas() + gs.flat_ext.lemmas() + ge.catvals_split.lemmas() + gl.all_c01_lemmas() + gl.all_c02_lemmas(),
     setup=gp.install,
     level='other',
     replay=script_replay('replay/cli.py', default_fn='C17'),
